@@ -105,6 +105,13 @@ class Inliner(object):
       elif isinstance(x, ast.For) and isinstance(x.target, (ast.Tuple, ast.List)) and isinstance(x.iter, (ast.Name, ast.Tuple, ast.List)):
         hit = True           # possibly a loop over a literal table (see _unroll_literal_loops)
         break
+      elif isinstance(x, ast.YieldFrom):
+        hit = True           # desugared to a loop (_desugar_yield_from)
+        break
+      elif isinstance(x, ast.Call) and isinstance(x.func, ast.Attribute) and x.func.attr == 'get' and isinstance(x.func.value, ast.Name) and \
+          any(isinstance(v, ast.Dict) for v in module.globals.get(x.func.value.id, [])):
+        hit = True           # possibly a dispatch table (_expand_dispatch)
+        break
       elif isinstance(x, ast.If):
         names = [y for y in ast.walk(x.test) if isinstance(y, ast.Name)]
         if names and isinstance(x.test, (ast.Name, ast.UnaryOp, ast.BoolOp)):
@@ -202,6 +209,8 @@ class Inliner(object):
           break
     finally:
       self._cur_locals = outer if outer is not None else set()
+    if _desugar_yield_from(node):
+      inlined.append('<flag>')
     if inlined:
       _coalesce_copies(node)
       node._inlined_from = sorted((set(inlined) | set(getattr(node, '_inlined_from', ()))) - {'<flag>'})
@@ -278,8 +287,12 @@ class Inliner(object):
             inner = True
         if not inner:
           own_jumps = True
+    consumer_body = s.body
     if own_jumps and not _yield_ends_last_loop(callee.node):
-      return None
+      # `continue` of the consumer = resume the generator after the yield: expressible when the body can be written without it
+      consumer_body = _eliminate_continue([_clone(b) for b in s.body])
+      if consumer_body is None:
+        return None
     ys = [x for x in walk_no_nested(callee.node, include_self=False) if isinstance(x, (ast.Yield, ast.YieldFrom))]
     stmt_ys = [st for st in walk_no_nested(callee.node, include_self=False) if isinstance(st, ast.Expr) and isinstance(st.value, ast.Yield)]
     if len(ys) != len(stmt_ys) or len(ys) > 2 or any(isinstance(y, ast.YieldFrom) for y in ys):
@@ -303,7 +316,7 @@ class Inliner(object):
         def visit_Lambda(self, n):
           return n
       res = ([RB().visit(st) for st in res[0]], res[1])
-    body = s.body
+    body = consumer_body
     target = s.target
 
     class Y(ast.NodeTransformer):
@@ -332,6 +345,10 @@ class Inliner(object):
 
   # ------------------------------------------------------------------ statements
   def _block(self, stmts, fn, stack, inlined, depth):
+    ex = _expand_dispatch(list(stmts), getattr(self, '_module', None) or getattr(fn, 'module', None))
+    if ex is not None:
+      stmts = ex
+      inlined.append('<flag>')
     out = []
     for s in stmts:
       out.extend(self._stmt(s, fn, stack, inlined, depth))
@@ -614,6 +631,15 @@ class Inliner(object):
           return None
     # names the helper reads from its module must not be captured by locals of the function it is spliced into
     free = {x.id for x in walk_no_nested(node, include_self=False) if isinstance(x, ast.Name)} - set(rename) - {'self', 'cls'}
+    closure_of = getattr(callee, 'parent_fn', None)
+    if closure_of is not None:
+      # a function nested in the one it is called from: the enclosing function's locals it reads are meant to be those locals
+      enclosing = _locals_of(closure_of.node) if not isinstance(closure_of.node, ast.Lambda) else set()
+      if closure_of.key not in stack and getattr(fn, 'key', None) != closure_of.key:
+        return None         # called from elsewhere (passed around): leave it
+      if any(isinstance(x, ast.Nonlocal) for x in ast.walk(node)):
+        return None
+      free = free - enclosing
     if free & getattr(self, '_cur_locals', set()):
       return None
     ret = '__ret%d' % k
@@ -690,6 +716,67 @@ class Inliner(object):
 
 # ---------------------------------------------------------------------- helpers
 
+def _desugar_yield_from(defnode):
+  """`yield from E` used as a statement (what is left after generator helpers were spliced)  ->  for v in E: yield v"""
+  n = [0]
+
+  class Y(ast.NodeTransformer):
+    def visit_Expr(self, st):
+      if isinstance(st.value, ast.YieldFrom):
+        n[0] += 1
+        v = '__yf%d' % n[0]
+        y = ast.Expr(value=ast.Yield(value=ast.Name(id=v, ctx=ast.Load())))
+        loop = ast.For(target=ast.Name(id=v, ctx=ast.Store()), iter=st.value.value, body=[y], orelse=[])
+        for x in ast.walk(loop):
+          if x is not st.value.value and not hasattr(x, 'lineno') and isinstance(x, (ast.expr, ast.stmt)):
+            ast.copy_location(x, st)
+        ast.copy_location(loop, st)
+        ast.fix_missing_locations(loop)
+        return loop
+      return st
+
+    def visit_FunctionDef(self, node):
+      return node
+
+    def visit_Lambda(self, node):
+      return node
+  for field in ('body',):
+    defnode.body = [Y().visit(st) for st in defnode.body]
+  return n[0] > 0
+
+
+def _split_parallel_assignments(defnode):
+  """a, b = (x__i3, E)   ->   a = x__i3; b = E     when some element is a synthetic name (a spliced helper's result being
+  handed over), all targets are distinct plain names and no element reads a target: the order of evaluation is unchanged."""
+  import re
+  syn = re.compile(r'__(i|ret)\d+$')
+  for owner in ast.walk(defnode):
+    for field in ('body', 'orelse', 'finalbody'):
+      blk = getattr(owner, field, None)
+      if not isinstance(blk, list):
+        continue
+      i = 0
+      while i < len(blk):
+        st = blk[i]
+        if isinstance(st, ast.Assign) and len(st.targets) == 1 and isinstance(st.targets[0], (ast.Tuple, ast.List)) and \
+           isinstance(st.value, (ast.Tuple, ast.List)) and len(st.targets[0].elts) == len(st.value.elts) and \
+           all(isinstance(t, ast.Name) for t in st.targets[0].elts) and \
+           any(isinstance(v, ast.Name) and syn.search(v.id) for v in st.value.elts) and \
+           not all(isinstance(v, ast.Name) for v in st.value.elts):
+          tn = [t.id for t in st.targets[0].elts]
+          reads = {x.id for v in st.value.elts for x in ast.walk(v) if isinstance(x, ast.Name)}
+          if len(set(tn)) == len(tn) and not (set(tn) & reads):
+            new = []
+            for t, v in zip(st.targets[0].elts, st.value.elts):
+              a = ast.Assign(targets=[t], value=v)
+              ast.copy_location(a, st)
+              new.append(a)
+            blk[i:i + 1] = new
+            i += len(new)
+            continue
+        i += 1
+
+
 _SYNTH = None
 
 
@@ -702,6 +789,7 @@ def _coalesce_copies(defnode):
   global _SYNTH
   if _SYNTH is None:
     _SYNTH = re.compile(r'__(i|ret)\d+$')
+  _split_parallel_assignments(defnode)
   params = {a.arg for a in defnode.args.posonlyargs + defnode.args.args + defnode.args.kwonlyargs}
   if defnode.args.vararg:
     params.add(defnode.args.vararg.arg)
@@ -760,6 +848,9 @@ def _coalesce_copies(defnode):
             for j in range(si):
               if isinstance(blk[j], ast.Assign) and any(y is dnode for tt in blk[j].targets for y in ast.walk(tt)):
                 di = j
+            if di is None and field == 'body' and isinstance(blk_owner, ast.For) and not blk_owner.orelse and \
+               any(y is dnode for y in ast.walk(blk_owner.target)):
+              di = -1        # the synthetic name is the loop variable of the loop whose body the copy sits in
             if di is None:
               continue
             if any(isinstance(y, (ast.Continue, ast.Break)) for st in blk[di + 1:si] for y in ast.walk(st)):
@@ -864,6 +955,61 @@ def _subst_flags(block):
   return changed
 
 
+def _eliminate_continue(stmts):
+  """the statement list of a loop body rewritten without `continue` (and with no `break` of that loop), or None:
+       if T: A; continue          if T: A
+       REST                 ->    else: REST
+  applied recursively; a continue that ends the list is dropped."""
+  def own(x_list, kinds):
+    for st in x_list:
+      for x in walk_no_nested(st):
+        if isinstance(x, kinds):
+          inner = any(isinstance(y, (ast.For, ast.While)) and any(z is x for z in ast.walk(y)) for y in walk_no_nested(st) )
+          if not inner:
+            return True
+    return False
+  if own(stmts, ast.Break):
+    return None
+
+  def ends_with_continue(blk):
+    return bool(blk) and isinstance(blk[-1], ast.Continue)
+
+  def go(lst):
+    out = []
+    for i, st in enumerate(lst):
+      rest = lst[i + 1:]
+      if isinstance(st, ast.Continue):
+        return out                    # nothing after it runs
+      if isinstance(st, ast.If) and own([st], ast.Continue):
+        b, o = st.body, st.orelse
+        if ends_with_continue(b) and not own(b[:-1], ast.Continue) and not own(o, ast.Continue):
+          nb = b[:-1] or [ast.copy_location(ast.Pass(), st)]
+          tail = go(rest)
+          if tail is None:
+            return None
+          st.body = nb
+          st.orelse = (o + tail) if o else tail
+          out.append(st)
+          return out
+        if ends_with_continue(o) and not own(o[:-1], ast.Continue) and not own(b, ast.Continue):
+          tail = go(rest)
+          if tail is None:
+            return None
+          st.body = b + tail
+          st.orelse = o[:-1]
+          out.append(st)
+          return out
+        return None
+      if own([st], ast.Continue):
+        return None
+      out.append(st)
+    return out
+  res = go(list(stmts))
+  if res is None or own(res, ast.Continue):
+    return None
+  return res or [ast.Pass()]
+
+
 def _returns_leave_only_loop(defnode):
   """the generator's body is a single loop (after the docstring) and each of its `return`s (without a value) sits in that
   loop and in no inner one: `return` is `break` there, and nothing runs after the loop."""
@@ -915,6 +1061,112 @@ def _plain_element(e):
   if isinstance(e, ast.Attribute):
     return _plain_element(e.value)
   return False
+
+
+def _dispatch_table(module, name):
+  """[(constant key, value ast)] of a module-level literal dict bound once to ``name`` and never modified in its module:
+  at most MAX_UNROLL rows of plain elements (names of functions / classes, attributes, constants)."""
+  if module is None:
+    return None
+  vals = module.globals.get(name, [])
+  if len(vals) != 1 or not isinstance(vals[0], ast.Dict):
+    return None
+  d = vals[0]
+  if not (0 < len(d.keys) <= MAX_UNROLL) or not all(isinstance(k, ast.Constant) and isinstance(k.value, (str, int)) for k in d.keys) or \
+     not all(_plain_element(v) for v in d.values):
+    return None
+  for x in ast.walk(module.tree):
+    if isinstance(x, ast.Global) and name in x.names:
+      return None
+    if isinstance(x, ast.Subscript) and isinstance(x.value, ast.Name) and x.value.id == name and isinstance(x.ctx, (ast.Store, ast.Del)):
+      return None
+    if isinstance(x, ast.Call) and isinstance(x.func, ast.Attribute) and isinstance(x.func.value, ast.Name) and x.func.value.id == name and \
+       x.func.attr in ('update', 'pop', 'popitem', 'setdefault', 'clear', '__setitem__', '__delitem__'):
+      return None
+  return list(zip([k.value for k in d.keys], d.values))
+
+
+def _expand_dispatch(block, module):
+  """f = TABLE.get(key, default) ; ... f(args) ...      (TABLE a literal module-level dict, f used once, as the callee)
+       ->   if key == k1: ... v1(args) ... elif key == k2: ... v2(args) ... else: ... default(args) ...
+  The inverse of "replace the if-chain by a lookup table": the calls become direct and can be resolved and spliced.
+  Also the one-expression form  TABLE.get(key, default)(args)."""
+  if module is None:
+    return None
+  changed = False
+  i = 0
+  while i < len(block):
+    st = block[i]
+    look = None
+    if isinstance(st, ast.Assign) and len(st.targets) == 1 and isinstance(st.targets[0], ast.Name) and i + 1 < len(block):
+      look, fname = _table_lookup(st.value, module), st.targets[0].id
+      use = block[i + 1]
+      if look is not None:
+        loads = [x for b in block for x in ast.walk(b) if isinstance(x, ast.Name) and x.id == fname and isinstance(x.ctx, ast.Load)]
+        stores = [x for b in block for x in ast.walk(b) if isinstance(x, ast.Name) and x.id == fname and isinstance(x.ctx, ast.Store)]
+        callee_uses = [c for c in ast.walk(use) if isinstance(c, ast.Call) and isinstance(c.func, ast.Name) and c.func.id == fname]
+        if len(loads) != 1 or len(stores) != 1 or len(callee_uses) != 1 or callee_uses[0].func is not loads[0] or \
+           isinstance(use, (ast.For, ast.While, ast.If, ast.Try, ast.With, ast.FunctionDef, ast.ClassDef)):
+          look = None
+      if look is not None:
+        key, rows, default = look
+        arms = []
+        for kv, val in rows + [(None, default)]:
+          cp = _clone(use)
+          for c in ast.walk(cp):
+            if isinstance(c, ast.Call) and isinstance(c.func, ast.Name) and c.func.id == fname:
+              c.func = ast.copy_location(_clone(val), c.func)
+          arms.append((kv, cp))
+        block[i:i + 2] = [_if_chain(key, arms, st)]
+        changed = True
+        continue
+    elif isinstance(st, (ast.Return, ast.Expr, ast.Assign)) and not isinstance(st, ast.For):
+      calls = [c for c in ast.walk(st) if isinstance(c, ast.Call) and isinstance(c.func, ast.Call) and _table_lookup(c.func, module)]
+      if len(calls) == 1 and not any(isinstance(x, (ast.Lambda, ast.ListComp, ast.GeneratorExp, ast.DictComp, ast.SetComp)) for x in ast.walk(st)):
+        key, rows, default = _table_lookup(calls[0].func, module)
+        arms = []
+        for kv, val in rows + [(None, default)]:
+          cp = _clone(st)
+          for c in ast.walk(cp):
+            if isinstance(c, ast.Call) and isinstance(c.func, ast.Call) and _table_lookup(c.func, module):
+              c.func = ast.copy_location(_clone(val), c.func)
+          arms.append((kv, cp))
+        block[i:i + 1] = [_if_chain(key, arms, st)]
+        changed = True
+        continue
+    i += 1
+  return block if changed else None
+
+
+def _table_lookup(e, module):
+  """(key expression, rows, default value) of  TABLE.get(<name or attribute>, <plain default>)  on a dispatch table"""
+  if not (isinstance(e, ast.Call) and isinstance(e.func, ast.Attribute) and e.func.attr == 'get' and isinstance(e.func.value, ast.Name) and
+          len(e.args) == 2 and not e.keywords):
+    return None
+  rows = _dispatch_table(module, e.func.value.id)
+  if rows is None or not _plain_element(e.args[0]) or isinstance(e.args[0], ast.Constant) or not _plain_element(e.args[1]):
+    return None
+  if not all(isinstance(v, (ast.Name, ast.Attribute)) for _, v in rows) or not isinstance(e.args[1], (ast.Name, ast.Attribute)):
+    return None
+  return e.args[0], rows, e.args[1]
+
+
+def _if_chain(key, arms, at):
+  """if key == k1: S1 elif key == k2: S2 ... else: Sn   (arms = [(k, stmt)], the last one with k None is the else)"""
+  node = None
+  for kv, stmt in reversed(arms):
+    if kv is None and node is None:
+      node = [stmt]
+      continue
+    test = ast.Compare(left=_clone(key), ops=[ast.Eq()], comparators=[ast.Constant(value=kv)])
+    new = ast.If(test=test, body=[stmt], orelse=node or [])
+    ast.copy_location(new, at)
+    node = [new]
+  for x in ast.walk(node[0]):
+    if not hasattr(x, 'lineno') and isinstance(x, (ast.expr, ast.stmt)):
+      ast.copy_location(x, at)
+  ast.fix_missing_locations(node[0])
+  return node[0]
 
 
 def _literal_table(block, i, module):
